@@ -7,6 +7,8 @@ import Cerberus.Codec
 import Cerberus.Model.Tree
 import Cerberus.Model.Render
 import Cerberus.Model.Setters
+import Cerberus.Model.Validate
+import Cerberus.Extracted
 open Lean Cerberus Cerberus.Codec
 
 namespace Drv
@@ -84,6 +86,126 @@ def portSetters (j : Json) : Except String Json := do
     | none => pure (Json.str "fuel")
   | _ => throw "mapping must be a dict"
 
+/-! ### environment of a case -/
+
+/-- plain JSON constants of setter specs: int, str, null, lists of those -/
+partial def plainConst : Json → Val
+  | .null => .none
+  | .bool b => .bool b
+  | .num n => .int n.mantissa
+  | .str s => .str s
+  | .arr a => .seq false (a.toList.map plainConst)
+  | _ => .none
+
+/-- default setters are named `s:<json spec>`; the spec is interpreted here (twin of
+    `harness/families.py: make_setter`) -/
+def setterOfName (name : String) (m : List (Key × Val)) : SetterResult :=
+  if name == "s_one" then .ok (.int 1)
+  else if name == "s_raise" then .other "s_raise always fails"
+  else if !name.startsWith "s:" then .other "unknown setter"
+  else
+    match Json.parse (name.drop 2).toString with
+    | .error _ => .other "bad setter spec"
+    | .ok j =>
+      match (j.getObjVal? "kind").bind (·.getStr?) with
+      | .ok "sum" =>
+        match (j.getObjVal? "deps").bind (·.getArr?) with
+        | .ok deps =>
+          let rec go : List Json → Int → SetterResult
+            | [], acc => .ok (.int acc)
+            | d :: r, acc =>
+              let k : Option Key := match d with
+                | .str s => some (.s s)
+                | .num n => some (.i n.mantissa)
+                | _ => none
+              match k with
+              | none => .other "bad dep"
+              | some k => match Val.dlookup m k with
+                | none => .keyError
+                | some (.int n) => go r (acc + n)
+                | some _ => .other "TypeError"
+          go deps.toList 1
+        | .error _ => .other "bad deps"
+      | .ok "copy" =>
+        match j.getObjVal? "dep" with
+        | .ok (.str s) => (match Val.dlookup m (.s s) with | some v => .ok v | none => .keyError)
+        | .ok (.num n) => (match Val.dlookup m (.i n.mantissa) with | some v => .ok v | none => .keyError)
+        | _ => .other "bad dep"
+      | .ok "const" =>
+        match j.getObjVal? "v" with
+        | .ok v => .ok (plainConst v)
+        | .error _ => .other "bad const"
+      | .ok "raise" => .other "s_raise always fails"
+      | .ok "keyerr" => .keyError
+      | _ => .other "bad kind"
+
+structure CaseEnv where
+  env : Env
+  cfg : Cfg
+
+def regOfJson (j : Json) (field : String) : Except String (String → Option Val) := do
+  match j.getObjVal? field with
+  | .error _ => pure (fun _ => none)
+  | .ok o =>
+    let v ← valOfJson o
+    match v with
+    | .dict kvs => pure (fun name => Val.dlookup kvs (.s name))
+    | _ => throw "registry must be a dict"
+
+def envOfJson (j : Json) : Except String Env := do
+  let ej := (j.getObjVal? "env").toOption.getD (Json.mkObj [])
+  let rxs ← match ej.getObjVal? "rx" with
+    | .ok a => do
+      (← jarr a).toList.mapM fun t => do
+        let p ← jarr t
+        pure ((← jstr p[0]!), (← jstr p[1]!), (← p[2]!.getBool?))
+    | .error _ => pure []
+  let rulesSets ← regOfJson ej "rulesSets"
+  let schemas ← regOfJson ej "schemas"
+  let named := (ej.getObjVal? "named").toOption.bind (·.getBool?.toOption) |>.getD false
+  pure {
+    rx := fun pat s => (rxs.find? (fun t => t.1 == pat && t.2.1 == s)).map (·.2.2)
+    coerce := Family.coerce
+    hasCoercer := fun n => named && Family.coercerNames.contains n
+    setter := setterOfName
+    hasSetter := fun n => named && (n == "s_one" || n == "s_raise")
+    checker := Family.checker
+    rulesSets := rulesSets
+    schemas := schemas }
+
+def cfgOfJson (j : Json) : Except String Cfg := do
+  let cj := (j.getObjVal? "cfg").toOption.getD (Json.mkObj [])
+  let getV (k : String) (d : Val) : Except String Val :=
+    match cj.getObjVal? k with
+    | .ok v => valOfJson v
+    | .error _ => pure d
+  let getB (k : String) : Bool := (cj.getObjVal? k).toOption.bind (·.getBool?.toOption) |>.getD false
+  pure {
+    allowUnknown := ← getV "allow_unknown" (.bool false)
+    requireAll := ← getV "require_all" (.bool false)
+    ignoreNone := getB "ignore_none_values"
+    purgeUnknown := ← getV "purge_unknown" (.bool false)
+    purgeReadonly := getB "purge_readonly"
+    isNormalized := false }
+
+def outcomeToJson (r : M (List Err)) : Json :=
+  match r with
+  | .ok es => Json.mkObj [("ok", errsToJson es)]
+  | .error (.py t s) => Json.mkObj [("raised", Json.arr #[Json.str t, Json.str s])]
+  | .error .schemaRuleType => Json.mkObj [("raised", Json.arr #[Json.str "_SchemaRuleTypeError", Json.str ""])]
+  | .error .fuel => Json.str "fuel"
+  | .error (.oracle w) => Json.mkObj [("need", Json.str w)]
+
+def portValidate0 (j : Json) : Except String Json := do
+  let env ← envOfJson j
+  let cfg ← cfgOfJson j
+  let schema ← valOfJson (← j.getObjVal? "schema")
+  let doc ← valOfJson (← j.getObjVal? "doc")
+  let upd := (j.getObjVal? "update").toOption.bind (·.getBool?.toOption) |>.getD false
+  let fuel := (j.getObjVal? "fuel").toOption.bind (·.getNat?.toOption) |>.getD 40
+  let ctx : Ctx := { cfg := cfg }
+  pure (outcomeToJson (validate0 env Extracted.tables fuel ctx schema doc upd))
+
 def handle (line : String) : Json :=
   match Json.parse line with
   | .error e => Json.mkObj [("error", Json.str s!"parse: {e}")]
@@ -95,6 +217,7 @@ def handle (line : String) : Json :=
       | "tree" => portTree j
       | "render" => portRender j
       | "setters" => portSetters j
+      | "validate0" => portValidate0 j
       | "ping" => pure (Json.str "pong")
       | _ => throw s!"bad-op {port}"
     match r with
